@@ -12,8 +12,10 @@ spec -> code : QuadratureMC.tla enumerates (i) every integer interval / degree w
                interval end points per entry point (ETYPE); (ix) QGauss2 grids across the 2^20-point boundary
                with the exact integrals of separable monomials (SCALE; laws of the tensor sum over row blocks
                checked by TLC); (x) every interleaving of the configure / use steps of concurrent calls on the
-               module-level qgauss() or one shared object (THR), replayed with real threads paused at function
-               boundaries, plus free-running threads behind a barrier.
+               module-level qgauss(), on one QGauss object per thread, or read-only on one shared object (THR),
+               replayed with real threads paused at function boundaries, plus free-running threads behind a
+               barrier (also on gauleg).  Concurrent calls that change the point count of ONE shared object
+               are outside the statement and not exercised.
 code -> spec : what gauleg returned, the rules extracted from the integrators with recording /
                indicator integrands, the call-sequence observations, the tabulated-data results
                and the QGauss2 observations are written as ndjson and judged by
@@ -970,6 +972,8 @@ def thr_call(target, shared, kind, arg, slot, big=False):
     if target == "gauleg":
         x, w = ei.gauleg(*SEQ_IV[slot], arg)
         return np.concatenate([x, w])
+    if target == "own":                                   # an object of the thread's own (built here, inside the thread)
+        shared = ei.QGauss(shared if shared else None)
     if kind == "data":
         x, y = THR_BIG[slot] if big else SEQ_TAB[slot]
         if target == "qgauss":
@@ -996,7 +1000,7 @@ def thr_run(target, ctor, sched, pauses):
     pauses[t]-th function boundary of esutil/integrate/util.py or of the integrand; beyond the last: to the end), a `finish`
     event lets it run to the end.  Exactly one thread runs at any time.  returns (events, boundary counts)"""
     import esutil.integrate as ei
-    shared = ei.QGauss(ctor if ctor else None) if target == "object" else None
+    shared = ei.QGauss(ctor) if target == "shared" else (ctor if target == "own" else None)    # "own": the constructor argument
     calls = {ev["t"]: (ev["kind"], ev["arg"]) for ev in sched if ev["op"] == "start"}
     cond = threading.Condition()
     state = {t: "idle" for t in calls}
@@ -1080,8 +1084,8 @@ def thr_boundaries(target, kind):
     """number of pause points of one call (dry sequential run)"""
     key = (target, kind)
     if key not in _THR_NB:
-        _, nb = thr_run(target, THR_NPTS[0] if target == "object" else 0,
-                        [{"op": "start", "t": 1, "kind": kind, "arg": THR_NPTS[1]}, {"op": "finish", "t": 1}], {})
+        _, nb = thr_run(target, 0 if target == "qgauss" else THR_NPTS[0],
+                        [{"op": "start", "t": 1, "kind": kind, "arg": THR_NPTS[0]}, {"op": "finish", "t": 1}], {})
         _THR_NB[key] = max(1, nb[1])
     return _THR_NB[key]
 
@@ -1095,7 +1099,8 @@ def obs_thr(args):
         if ev["op"] == "start":
             pauses[ev["t"]] = rng.randint(1, thr_boundaries(c["target"], ev["kind"]))
     ev, nb = thr_run(c["target"], c["ctor"], c["sched"], pauses)
-    return {"k": "thr", "id": rid, "target": c["target"], "ctor": c["ctor"], "ev": ev, "mode": "stepped", "pauses": pauses, "sched": c["sched"], "draw": draw}
+    return {"k": "thr", "id": rid, "target": c["target"], "ctor": c["ctor"], "shared": c["target"] == "shared", "ev": ev, "mode": "stepped",
+            "pauses": pauses, "sched": c["sched"], "draw": draw}
 
 
 def thr_prime():
@@ -1107,24 +1112,26 @@ def thr_prime():
         xb = np.linspace(x[0], x[-1], 60001)
         THR_BIG[slot] = (xb, np.interp(xb, x, y) + 0.25 * np.sin(3.0 * xb))
         with np.errstate(all="ignore"):
-            THR_BIG[("ref", "qgauss", "data", slot)] = THR_BIG[("ref", "object", "data", slot)] = \
-                {e: float(ei.QGauss(e).integrate(THR_BIG[slot][0].copy(), THR_BIG[slot][1].copy())) for e in allp}
+            ref = {e: float(ei.QGauss(e).integrate(THR_BIG[slot][0].copy(), THR_BIG[slot][1].copy())) for e in allp}
+            for t in ("qgauss", "own", "shared"):
+                THR_BIG[("ref", t, "data", slot)] = ref
             THR_BIG[("ref", "gauleg", "data", slot)] = THR_BIG[("ref", "gauleg", "func", slot)] = \
                 {e: np.concatenate(ei.gauleg(*SEQ_IV[slot], e)) for e in allp}
-    for t in ("qgauss", "object"):
+    for t in ("qgauss", "own", "shared"):
         for k in ("func", "data"):
             thr_boundaries(t, k)
 
 
 def obs_stress(args):
-    """free-running threads behind a barrier: every round each of 4 threads makes one call with its own npts on the module
-    function / the shared object / gauleg; each result is compared with the sequential one.  A mismatch is a violation,
-    agreement proves nothing."""
+    """free-running threads behind a barrier: every round each of 4 threads makes one call - with its own npts on the module
+    functions qgauss / gauleg or on an object of its own, with the constructor's count on one shared object; each result
+    is compared with the sequential one.  A mismatch is a violation, agreement proves nothing."""
     rid0, target, kind, rounds, seed = args
     import esutil.integrate as ei
     allp = sorted(set(NPTS) | set(NEST_NPTS))
     nthr = 4
-    shared = ei.QGauss(allp[0]) if target == "object" else None
+    ctor = THR_NPTS[1]
+    shared = ei.QGauss(ctor) if target == "shared" else (ctor if target == "own" else None)
     big = kind == "data" and target != "gauleg"
     bar = threading.Barrier(nthr)
     out = [[None] * nthr for _ in range(rounds)]
@@ -1132,6 +1139,10 @@ def obs_stress(args):
     def worker(t):
         for rd in range(rounds):
             arg = allp[(t + rd) % len(allp)]
+            if target == "shared":                            # read-only use: npts omitted or the constructor's
+                arg = (0, ctor)[(t + rd) % 2]
+            elif target == "own" and (t + rd) % 5 == 0:
+                arg = 0
             slot = (t + rd // 7) % 4
             try:
                 bar.wait(timeout=60)
@@ -1164,8 +1175,8 @@ def obs_stress(args):
             fin = err == "none" and (target == "gauleg" or math.isfinite(r))
             ev.append({"op": "finish", "t": t + 1, "err": err, "ok": thr_ok(target, kind, slot, r, big=big) if fin else [],
                        "result": None if target == "gauleg" else (r if math.isfinite(r) else repr(r))})
-        recs.append({"k": "thr", "id": rid0 + rd, "target": target, "ctor": allp[0] if target == "object" else 0, "ev": ev, "mode": "free", "kind": kind,
-                     "rounds": rounds})
+        recs.append({"k": "thr", "id": rid0 + rd, "target": target, "ctor": ctor if target in ("own", "shared") else 0, "shared": target == "shared",
+                     "ev": ev, "mode": "free", "kind": kind, "rounds": rounds})
     return recs
 
 
@@ -1258,6 +1269,16 @@ def obs_tensor(args):
 
 
 # ---- judging -----------------------------------------------------------------------------------
+def pmap_small(fn, items):
+    """fork-parallel map for a handful of heavy items (vh.par.pmap runs fewer than 64 items serially)"""
+    import multiprocessing as mp
+    nproc = max(1, min(len(items), 8, int(os.environ.get("VH_MAX_WORKERS", "16"))))
+    if nproc == 1:
+        return [fn(x) for x in items]
+    with mp.get_context("fork").Pool(nproc) as pool:
+        return pool.map(fn, items, chunksize=1)
+
+
 def json_key(c):
     import json
     return json.dumps(c, sort_keys=True)
@@ -1302,7 +1323,7 @@ def signature(r, clause):
         e = r["ev"][int(step) - 1] if step else {}
         kind = [x["kind"] for x in r["ev"] if x["op"] == "start" and x["t"] == e.get("t")]
         args = set(x["arg"] for x in r["ev"] if x["op"] == "start")
-        return "%s(threads)|%s|%s,%s,%s" % ({"qgauss": "qgauss", "object": "QGauss.integrate", "gauleg": "gauleg"}[r["target"]], cl,
+        return "%s(threads)|%s|%s,%s,%s" % ({"qgauss": "qgauss", "own": "QGauss per thread", "shared": "shared QGauss read-only", "gauleg": "gauleg"}[r["target"]], cl,
                                            kind[0] if kind and r["target"] != "gauleg" else "any", "npts differ" if len(args) > 1 else "same npts",
                                            "stepped" if r["mode"] == "stepped" else "free-running")
     if k == "scale":
@@ -1360,7 +1381,8 @@ THR_FIELDS = {"start": ("op", "t", "arg"), "finish": ("op", "t", "err", "ok")}
 
 def trace_view(r):
     if r["k"] == "thr":
-        return {"k": "thr", "id": r["id"], "ctor": r["ctor"], "ev": [{f: e[f] for f in THR_FIELDS[e["op"]]} for e in r["ev"]]}
+        return {"k": "thr", "id": r["id"], "ctor": r["ctor"], "shared": bool(r.get("shared")),
+                "ev": [{f: e[f] for f in THR_FIELDS[e["op"]]} for e in r["ev"]]}
     if r["k"] == "nest":
         return {"k": "nest", "id": r["id"], "ctor": r["ctor"], "ev": [{f: e[f] for f in NEST_FIELDS[e["op"]]} for e in r["ev"]]}
     if r["k"] == "data":
@@ -1418,6 +1440,12 @@ def gauleg_cases(ctx, B):
         for (a, b) in ivs:
             for n in nsc:
                 cases.append((a, b, sc, n))
+    # scale: point counts at and across powers of two, primes, the sizes of the big QGauss2 grids
+    big = [1023, 1024, 1025, 1501, 4099] if ctx.quick else [257, 511, 512, 513, 1021, 1023, 1024, 1025, 1031, 1200, 1501, 1536, 2048, 2049, 3001,
+                                                            4096, 4097, 4099]
+    for i, n in enumerate(big):
+        for (a, b, sc) in ([(-1, 1, 0), (0, 1, 0), (-5, 3, 0), (2, 5, -20)][i % 4:][:1] if ctx.quick else [(-1, 1, 0), (0, 1, 0), (-5, 3, 0), (3, -1, 0)]):
+            cases.append((a, b, sc, n))
     seen, out = set(), []
     for c in cases:
         if c not in seen:
@@ -1647,7 +1675,7 @@ def run(ctx):
         if not any(len(set(e["t"] for e in r["ev"][:3])) > 1 and r["ev"][1]["op"] == "start" for r in recs):
             raise MachineryError("no overlapping calls were replayed")
         rounds = 60 if ctx.quick else 400
-        sc = [(t, k) for t in ("qgauss", "object") for k in ("data", "func")] + [("gauleg", "data")]
+        sc = [(t, k) for t in ("qgauss", "own", "shared") for k in ("data", "func")] + [("gauleg", "data")]
         for j, (t, k) in enumerate(sc):
             recs += obs_stress((10 ** 6 + j * 10 ** 4, t, k, rounds, ctx.seed))
         judge(ctx, recs, "judge thread interleavings and free-running rounds (QuadratureTrace)")
@@ -1724,7 +1752,7 @@ def run(ctx):
                 cs = [c for c in cs if ((c["dj"], c["dk"]), (c["ax"], c["bx"], c["ay"], c["by"])) in want]
             sc.append((rid0, cs))
             rid0 += len(cs)
-        out = pmap(obs_scale_grid, sc, nproc=4) if len(sc) >= 64 else [obs_scale_grid(a) for a in sc]
+        out = pmap_small(obs_scale_grid, sc)
         recs = [r for o in out for r in o]
         judge(ctx, recs, "judge QGauss2 grids across 2^20 points (QuadratureTrace)")
         allrecs += recs
@@ -1797,19 +1825,36 @@ def selftest(ctx):
     data_list = {"k": "data", "n": 2, "err": "AttributeError", "finite": True, "val": False, "exact": list(rq.OFF), "xrep": "list", "yrep": "f8",
                  "tab": [{"x": [0, 1], "y": [1, 1]}, {"x": [1, 1], "y": [3, 1]}]}
     data_arr = dict(data_list, xrep=">f8")
+    # two threads, overlapping calls with 3 and 2 points on the module function: genuine, then thread 1 got thread 2's rule
+    def thr(ok1):
+        return {"k": "thr", "ctor": 0, "shared": False, "ev": [{"op": "start", "t": 1, "arg": 3}, {"op": "start", "t": 2, "arg": 2},
+                                               {"op": "finish", "t": 1, "err": "none", "ok": ok1}, {"op": "finish", "t": 2, "err": "none", "ok": [2]}]}
+    thr_good, thr_bad = thr([3]), thr([2])
+    # one object per thread built for 5 points, npts omitted while another thread asks for 2 on ITS object: 5, not 2
+    thr_none = {"k": "thr", "ctor": 5, "shared": False, "ev": [{"op": "start", "t": 1, "arg": 0}, {"op": "start", "t": 2, "arg": 2},
+                                                                {"op": "finish", "t": 2, "err": "none", "ok": [2]}, {"op": "finish", "t": 1, "err": "none", "ok": [5]}]}
+    thr_none_bad = dict(thr_none, ev=thr_none["ev"][:3] + [{"op": "finish", "t": 1, "err": "none", "ok": [2]}])
+    # x^1 y^2 over [0,2]x[1,3] on a 1200 x 1501 grid: 2 * 26/3 = 52/3
+    scale_ok = {"k": "scale", "nx": 1200, "ny": 1501, "dj": 1, "dk": 2, "ax": 0, "bx": 2, "ay": 1, "by": 3, "err": "none", "finite": True,
+                "npts": 1200 * 1501, "ndx": 1200, "ndy": 1501, "exact": [52, 3], "prod": True}
+    scale_rows = dict(scale_ok, npts=1200 * 1500, ndy=1500, exact=list(rq.OFF), prod=False)       # one row of the grid left out
     recs = [good, badw, badx, forged, swapped, seq_ok, seq_bad, nest_ok, nest_over, nest_w, nest_mut, ret_ok, ret_bad, ret_rej, ret_may,
-            data_list, data_arr]
+            data_list, data_arr, thr_good, thr_bad, thr_none, thr_none_bad, scale_ok, scale_rows]
     for i, r in enumerate(recs, 1):
         r["id"] = i
     rej = tracecheck.validate(ctx, "QuadratureTrace.tla", [trace_view(r) for r in recs], what="self-test: corrupted records rejected",
                               constants={"KCapX": _T["kcapx"], "KCapN": _T["kcapn"], "NPoly": NPOLY}, workers=1)
     ctx.traces = saved
     want = {2: "w_sum", 3: "poly_exact", 4: "poly_exact", 5: "ascending", 7: "uses_other_npts@2", 9: "abscissae_overwritten_during_call@7",
-            10: "weighted_sum@8", 13: "broadcast_sum", 14: "unexpected_error", 17: "unexpected_error"}
+            10: "weighted_sum@8", 13: "broadcast_sum", 14: "unexpected_error", 17: "unexpected_error", 19: "not_the_sequential_result@3",
+            21: "not_the_sequential_result@4", 23: "tensor_grid"}
     problems = [(i, rej.get(i)) for i, cl in want.items() if cl not in rej.get(i, [])]
     if "constant_integral" not in rej.get(13, []):
         problems.append((13, rej.get(13)))
-    for i in (1, 6, 8, 11, 12, 15, 16):
+    for cl in ("separable_exact", "product_of_marginals"):
+        if cl not in rej.get(23, []):
+            problems.append((23, rej.get(23)))
+    for i in (1, 6, 8, 11, 12, 15, 16, 18, 20, 22):
         if i in rej:
             problems.append(("genuine record rejected", i, rej.get(i)))
     if problems:
@@ -1856,6 +1901,22 @@ def replay(ctx, case):
         r = obs_nest((case["rid"], {"ctor": case["ctor"], "ev": case["script"]}))
         print("replay observed:", [{f: e[f] for f in NEST_FIELDS[e["op"]]} for e in r["ev"]])
         judge(ctx, [r], "replay", count=False)
+    elif k == "thr":
+        check_fresh_distinct()
+        thr_prime()
+        if case["mode"] == "stepped":
+            ev, _ = thr_run(case["target"], case["ctor"], case["sched"], {int(t): p for t, p in case["pauses"].items()})
+            recs = [{"k": "thr", "id": 1, "target": case["target"], "ctor": case["ctor"], "shared": case["target"] == "shared", "ev": ev, "mode": "stepped",
+                     "pauses": {int(t): p for t, p in case["pauses"].items()}, "sched": case["sched"]}]
+            print("replay observed:", ev)
+        else:
+            print("replay: free-running threads are not deterministic; running %d rounds again" % case["rounds"])
+            recs = obs_stress((1, case["target"], case["thread_kind"], case["rounds"], ctx.seed))
+        judge(ctx, recs, "replay", count=False)
+    elif k == "scale":
+        recs = obs_scale_grid((1, [case["case"]]))
+        print("replay observed:", {f: recs[0].get(f) for f in ("err", "finite", "npts", "ndx", "ndy", "calls", "exact", "prod", "result", "result_sep", "marginals")})
+        judge(ctx, recs, "replay", count=False)
     elif k == "ret":
         r = obs_ret((case["rid"], case["case"], ctx.seed))
         print("replay observed:", {f: r.get(f) for f in ("err", "finite", "val", "cexact", "result", "shape_of_result")})
